@@ -315,6 +315,14 @@ example :
   subst hk
   exact ⟨_, List.mem_cons_of_mem _ (List.mem_cons_of_mem _ (List.mem_cons_self ..)), rfl, _, List.mem_cons_self .., rfl, by decide⟩
 
+open CGV.MvccFull in
+theorem async_recovery_rolled_back_key_reports_no_locks (f : FStore) (pre post : List Bytes) (k : Bytes) (T : Nat) (c : Write)
+    (hpre : ∀ k' ∈ pre, PrewriteLocked f T k')
+    (hl : (getEntry f.base.kv k).lock.filter (·.startTS == T) = none)
+    (hr : txnCommitInfo (getEntry f.base.kv k).writes T = some c) (hv : c.vt = .rollback) :
+    (fcheckSecondaryLocks f (pre ++ k :: post) T).2.locks = [] ∧ (fcheckSecondaryLocks f (pre ++ k :: post) T).2.commitTS = 0 :=
+  sec_first_rolled_back f pre post k T c hpre hl hr hv
+
 /-- non-vacuity: after an acknowledged async prewrite of two keys both are `PrewriteLocked` -/
 example :
     let f := (MvccFull.fprewrite {} { mutations := [⟨.put, [0x61], [1], .none⟩, ⟨.put, [0x62], [2], .none⟩], primary := [0x61], startTS := 10, ttl := 3000 }
